@@ -212,7 +212,7 @@ func exprShort(e ast.Expr) string {
 }
 
 // whereGuarded decides whether the Exprs value of a Where literal is guarded.
-func whereGuarded(info *types.Info, exprs ast.Expr, facts factSet) (bool, string) {
+func whereGuarded(f *FuncSrc, info *types.Info, exprs ast.Expr, facts factSet) (bool, string) {
 	if exprs == nil {
 		return false, ""
 	}
@@ -259,10 +259,10 @@ func whereGuarded(info *types.Info, exprs ast.Expr, facts factSet) (bool, string
 					okEl, why = nonEmpty(v)
 					if !okEl {
 						// guarded by a negative zero test (bool local named by comma-ok of ValueOf)
-						okEl, why = zeroGuard(facts)
+						okEl, why = zeroGuard(f, facts, exprs.Pos())
 					}
 				} else if compositeField(e, "Value") != nil {
-					okEl, why = zeroGuard(facts)
+					okEl, why = zeroGuard(f, facts, exprs.Pos())
 				}
 			}
 			if !okEl {
@@ -275,11 +275,10 @@ func whereGuarded(info *types.Info, exprs ast.Expr, facts factSet) (bool, string
 	return false, ""
 }
 
-func zeroGuard(facts factSet) (bool, string) {
-	for f := range facts {
-		if f == "F:isZero" || f == "F:zero" {
-			return true, "!isZero"
-		}
+func zeroGuard(f *FuncSrc, facts factSet, pos token.Pos) (bool, string) {
+	// false(z) where z is the "is zero" result of a field.ValueOf call
+	if localFact(f, facts, false, pos, defIsZeroOfValueOf) {
+		return true, "value is not zero (second result of field.ValueOf)"
 	}
 	return false, ""
 }
@@ -404,7 +403,7 @@ func checkEmptyForms(c *Ctx, re *Rule) {
 				re.Unknown(f.Name(), desc, call.Pos(), "site not live")
 				continue
 			}
-			okGuard, why := whereGuarded(info, exprs, facts)
+			okGuard, why := whereGuarded(f, info, exprs, facts)
 			re.Check(okGuard, f.Name(), desc, call.Pos(), why, "a WHERE clause is added without a dominating non-emptiness / non-zero test of what it is built from: an empty condition would count as a condition",
 				"facts: "+strings.Join(facts.List(), ", "))
 		}
